@@ -541,3 +541,13 @@ pub async fn extract_into(
 pub fn control_code_u8(code: crate::app::control::ControlCode) -> u8 {
     code.as_u8()
 }
+
+/// (group, variation) of a `Variation` (the accessor is crate-private)
+pub fn group_var(v: crate::app::Variation) -> (u8, u8) {
+    v.to_group_and_var()
+}
+
+/// `Variation` from (group, variation)
+pub fn variation(group: u8, var: u8) -> Option<crate::app::Variation> {
+    crate::app::Variation::lookup(group, var)
+}
